@@ -65,7 +65,7 @@ func (c *OCSPRevocationChecker) IsRevoked(clientCertificate *x509.Certificate, v
 			if output == nil {
 				continue
 			}
-			ocspResponse, err := c.parseOcspResponse(certCandidates, output, ocspServer)
+			ocspResponse, err := c.parseOcspResponse(certCandidates, output, ocspServer, clientCertificate)
 			if err != nil {
 				c.logger.Debug("failed to parse ocsp server response", zap.String("ocsp_server", ocspServer), zap.Error(err))
 				continue
@@ -109,20 +109,36 @@ func (c *OCSPRevocationChecker) calculateEvictionTime(response *ocsp.Response) t
 	}
 }
 
-func (c *OCSPRevocationChecker) parseOcspResponse(certCandidates []*core.CertificateChainEntry, output []byte, ocspServer string) (*ocsp.Response, error) {
-	ocspResponse, err := ocsp.ParseResponse(output, nil)
-	if err == nil {
-		return ocspResponse, nil
-	}
+func (c *OCSPRevocationChecker) parseOcspResponse(certCandidates []*core.CertificateChainEntry, output []byte, ocspServer string, clientCertificate *x509.Certificate) (*ocsp.Response, error) {
 	for _, certCandidate := range certCandidates {
-		ocspResponse, err := ocsp.ParseResponse(output, certCandidate.Certificate)
+		//the response only counts if it contains a status for exactly this certificate and if it was signed by the issuer
+		//or by a responder certificate which was issued by the issuer for ocsp signing (rfc6960 section 4.2.2.2)
+		ocspResponse, err := ocsp.ParseResponseForCert(output, clientCertificate, certCandidate.Certificate)
 		if err != nil {
 			c.logger.Debug("failed to parse ocsp server response", zap.String("ocsp_server", ocspServer), zap.Error(err))
+			continue
+		}
+		if ocspResponse.Certificate != nil && !isAuthorizedResponder(ocspResponse.Certificate, certCandidate.Certificate) {
+			c.logger.Debug("ocsp response was signed by a certificate which is not authorized for ocsp signing", zap.String("ocsp_server", ocspServer))
 			continue
 		}
 		return ocspResponse, nil
 	}
 	return nil, errors.New("unable to parse ocsp response with any certificate available")
+}
+
+// isAuthorizedResponder checks if the responder certificate embedded in a response (already verified to be signed by the issuer)
+// is the issuer itself or was authorized by the issuer via the id-kp-OCSPSigning extended key usage
+func isAuthorizedResponder(responder *x509.Certificate, issuer *x509.Certificate) bool {
+	if bytes.Equal(responder.Raw, issuer.Raw) {
+		return true
+	}
+	for _, usage := range responder.ExtKeyUsage {
+		if usage == x509.ExtKeyUsageOCSPSigning {
+			return true
+		}
+	}
+	return false
 }
 
 func (c *OCSPRevocationChecker) Provision(ocspConfig *config.OCSPConfig, logger *zap.Logger) error {
